@@ -191,6 +191,18 @@ Qed.
 Lemma written_neq sum used out : obs_written sum used out <> obs_panic.
 Proof. unfold obs_written. destruct sum; discriminate. Qed.
 
+(** A failed write of a single call keeps the analysed call (or the call itself when the analysis
+    failed): the invariant of the sending half holds there too. *)
+Lemma call_after_failed_write_inv c :
+  SendCommon c ->
+  SendCommon (call_after_failed_write c) /\ (WB c -> WB (call_after_failed_write c)).
+Proof.
+  intros Hc. unfold call_after_failed_write.
+  pose proof (analyze_request_safe c Hc) as Hs.
+  destruct (analyze_request c) as [c1|e|site]; cbn [safe] in Hs; [|auto|auto].
+  destruct Hs as (Hc1 & _ & _ & Hw1 & _). auto.
+Qed.
+
 Lemma good_write_body s input cap track sum :
   SInv s -> Good (do_write_body s input cap track sum).
 Proof.
@@ -209,8 +221,95 @@ Proof.
     + destruct Hr as (Hc' & Hw' & _).
       split; [apply written_neq|]. cbn [fst]. apply sinv_track_sent. apply sinv_with_obj; [exact HS|].
       split; assumption.
-    + apply good_same; [exact HS|apply err_neq].
+    + destruct (call_after_failed_write_inv c Hc) as [Hc' Hw'].
+      split; [apply err_neq|]. apply sinv_with_obj; [exact HS|]. split; [exact Hc'|exact (Hw' Hw)].
 Qed.
+
+(* ------------------------------------------------------------------ the single call past the request *)
+
+(** [Call::into_receive]: what the sending half knows ([SendCommon]: no reader yet) gives the
+    invariant of [Call<RecvResponse>]; an unfinished request is an error and the call is gone. *)
+Lemma good_call_into_receive s c : SInv s -> SendCommon c -> Good (do_call_into_receive s c).
+Proof.
+  intros HS Hc. unfold do_call_into_receive, into_receive.
+  destruct (w_ended (c_writer c)).
+  - split; [cbn; discriminate|]. apply sinv_with_obj; [exact HS|].
+    cbn [ObjInv CallInv]. split; [exact (send_recv_common c Hc)|]. split; [reflexivity|].
+    destruct Hc as (_ & _ & _ & _ & _ & _ & Hrd). cbn [set_phase c_reader].
+    intros r E. rewrite Hrd in E. discriminate.
+  - split; [apply err_neq|]. apply sinv_with_obj; [exact HS|exact I].
+Qed.
+
+(** [Call<RecvResponse>::into_body]. *)
+Lemma good_call_into_body s c :
+  SInv s -> CallInv HRecvResponse c ->
+  Good (match c_reader c with
+        | None => (with_obj s ObNone, obs_err IncompleteResponse)
+        | Some RNoBody => (with_obj s ObNone, [w "none"])
+        | Some _ => (with_obj s (ObCall HRecvBody (set_phase c PRecvBody)), [w "call"; w "RecvBody"])
+        end).
+Proof.
+  intros HS (Hc & Hp & Hr).
+  assert (Hb : forall r, c_reader c = Some r ->
+               Good (with_obj s (ObCall HRecvBody (set_phase c PRecvBody)), [w "call"; w "RecvBody"])).
+  { intros r E. split; [cbn; discriminate|]. apply sinv_with_obj; [exact HS|].
+    cbn [ObjInv CallInv]. split; [exact Hc|]. split; [reflexivity|].
+    exists r. split; [exact E|exact (Hr r E)]. }
+  destruct (c_reader c) as [r|] eqn:Er.
+  - destruct r; try exact (Hb _ eq_refl).
+    split; [neq_panic|]. apply sinv_with_obj; [exact HS|exact I].
+  - split; [apply err_neq|]. apply sinv_with_obj; [exact HS|exact I].
+Qed.
+
+(** [Call<RecvResponse>::try_response]. *)
+Lemma good_call_try_response s c b :
+  SInv s -> CallInv HRecvResponse c ->
+  Good (match call_try_response c b with
+        | Ok (c', got) =>
+            (with_obj s (ObCall HRecvResponse c'),
+             match got with
+             | None => [w "none"; TN 0]
+             | Some (used, r) => [w "some"; TN used] ++ obs_response r
+             end)
+        | Err e => (s, obs_err e)
+        | Panic _ => (s, obs_panic)
+        end).
+Proof.
+  intros HS (Hc & Hp & Hr).
+  pose proof (call_try_response_safe c b) as Hs.
+  destruct (call_try_response c b) as [[c' got]|e|site]; cbn [safe fst] in Hs; try contradiction.
+  - split; [destruct got as [[used r]|]; cbn; discriminate|]. apply sinv_with_obj; [exact HS|].
+    cbn [ObjInv CallInv]. destruct Hs as [->|(rd & -> & Hrd)]; [auto|].
+    split; [exact Hc|]. split; [exact Hp|].
+    cbn [set_reader c_reader]. intros r E. inversion E; subst. exact Hrd.
+  - apply good_same; [exact HS|apply err_neq].
+Qed.
+
+(** [Call<RecvBody>::read]; after a failed read the decoder keeps the state it reached. *)
+Lemma good_call_read s c b cap :
+  SInv s -> CallInv HRecvBody c ->
+  Good (match call_read c b cap with
+        | Ok (c', i, o) => (with_obj s (ObCall HRecvBody c'), [w "ok"; TN i; TN (len o); TH o])
+        | Err e => (with_obj s (ObCall HRecvBody (call_read_after_err c b cap)), obs_err e)
+        | Panic _ => (s, obs_panic)
+        end).
+Proof.
+  intros HS (Hc & Hp & (rd & Er & Hrd)).
+  pose proof (call_read_safe c b cap rd Er Hrd) as Hs.
+  destruct (call_read c b cap) as [[[c' i] o]|e|site]; cbn [safe fst] in Hs; try contradiction.
+  - split; [cbn; discriminate|]. apply sinv_with_obj; [exact HS|].
+    cbn [ObjInv CallInv]. destruct Hs as [->|(rd' & -> & Hrd')].
+    + split; [exact Hc|]. split; [exact Hp|]. exists rd. split; assumption.
+    + split; [exact Hc|]. split; [exact Hp|]. exists rd'. split; [reflexivity|exact Hrd'].
+  - split; [apply err_neq|]. apply sinv_with_obj; [exact HS|].
+    cbn [ObjInv CallInv]. unfold RecvCommon.
+    rewrite call_read_after_err_req, call_read_after_err_phase, call_read_after_err_reader, Er.
+    split; [exact Hc|]. split; [exact Hp|].
+    eexists. split; [reflexivity|]. apply reader_after_ok. exact Hrd.
+Qed.
+
+Lemma call_reader_of_safe c : CallInv HRecvBody c -> safe (fun _ => True) (reader_of c).
+Proof. intros (_ & _ & (rd & Er & _)). unfold reader_of. rewrite Er. exact I. Qed.
 
 (* ------------------------------------------------------------------ the step *)
 
@@ -288,7 +387,11 @@ Proof.
     apply total_safe. apply despite_total. exact Hobj.
   - (* OProceed *)
     destruct (s_obj s) as [|t f|h c] eqn:Eo; try same_np HS.
-    apply good_proceed; assumption.
+    + apply good_proceed; assumption.
+    + cbn [ObjInv] in Hobj. destruct h; cbn [CallInv] in Hobj; try same_np HS.
+      * apply good_call_into_receive; [exact HS|exact Hobj].
+      * apply good_call_into_receive; [exact HS|exact (proj1 Hobj)].
+      * apply good_call_into_body; assumption.
   - (* OPremature *)
     destruct (s_obj s) as [|t f|h c] eqn:Eo; try same_np HS.
     apply good_premature; assumption.
@@ -300,7 +403,8 @@ Proof.
       pose proof (call_write_nobody_safe c cap Hobj) as Hr.
       destruct (call_write_nobody c cap) as [[c' out]|e|site]; cbn [safe fst] in Hr; try contradiction.
       * destruct Hr as (Hc' & _). split; [cbn; discriminate|]. apply sinv_with_obj; [exact HS|exact Hc'].
-      * apply good_same; [exact HS|apply err_neq].
+      * split; [apply err_neq|]. apply sinv_with_obj; [exact HS|].
+        exact (proj1 (call_after_failed_write_inv c Hobj)).
   - (* OWriteBody *)
     assert (Hg := good_write_body s input cap false false HS). destruct (s_obj s); exact Hg.
   - (* OWriteSum *)
@@ -338,18 +442,21 @@ Proof.
     destruct (s_obj s) as [|t f|h c] eqn:Eo; try destruct t; try same_np HS.
     cbn [ObjInv] in Hobj. apply good_try_response; assumption.
   - (* ORawTryResponse *)
-    destruct (s_obj s) as [|t f|h c] eqn:Eo; try destruct t; try same_np HS.
-    cbn [ObjInv] in Hobj. apply good_try_response; assumption.
+    destruct (s_obj s) as [|t f|h c] eqn:Eo; try destruct t; try destruct h; try same_np HS.
+    + cbn [ObjInv] in Hobj. apply good_try_response; assumption.
+    + cbn [ObjInv] in Hobj. apply good_call_try_response; assumption.
   - (* ORead *)
     destruct (s_obj s) as [|t f|h c] eqn:Eo; try destruct t; try same_np HS.
     cbn [ObjInv] in Hobj. apply good_read; assumption.
   - (* ORawRead *)
-    destruct (s_obj s) as [|t f|h c] eqn:Eo; try destruct t; try same_np HS.
-    cbn [ObjInv] in Hobj. apply good_read; assumption.
+    destruct (s_obj s) as [|t f|h c] eqn:Eo; try destruct t; try destruct h; try same_np HS.
+    + cbn [ObjInv] in Hobj. apply good_read; assumption.
+    + cbn [ObjInv] in Hobj. apply good_call_read; assumption.
   - (* OStop *)
-    destruct (s_obj s) as [|t f|h c] eqn:Eo; try destruct t; try same_np HS.
-    cbn [ObjInv] in Hobj. apply good_upd; [exact HS| |intros; apply ok_neq].
-    apply total_safe. apply recv_body_stop_total. exact Hobj.
+    destruct (s_obj s) as [|t f|h c] eqn:Eo; try destruct t; try destruct h; try same_np HS.
+    + cbn [ObjInv] in Hobj. apply good_upd; [exact HS| |intros; apply ok_neq].
+      apply total_safe. apply recv_body_stop_total. exact Hobj.
+    + cbn [ObjInv] in Hobj. split; [apply ok_neq|]. apply sinv_with_obj; [exact HS|exact Hobj].
   - (* OAsNewFlow *)
     destruct (s_obj s) as [|t f|h c] eqn:Eo; try destruct t; try same_np HS.
     cbn [ObjInv] in Hobj.
@@ -388,9 +495,11 @@ Proof.
     cbn [ObjInv] in Hobj. apply good_same; [exact HS|].
     eapply obs_res_neq; [apply total_safe; apply (send_body_queries_total f n Hobj)|intros; discriminate].
   - (* OQBoundary *)
-    destruct (s_obj s) as [|t f|h c] eqn:Eo; try destruct t; try same_np HS.
-    cbn [ObjInv] in Hobj. apply good_same; [exact HS|].
-    eapply obs_res_neq; [apply total_safe; apply (recv_body_queries_total f Hobj)|apply bool_neq].
+    destruct (s_obj s) as [|t f|h c] eqn:Eo; try destruct t; try destruct h; try same_np HS.
+    + cbn [ObjInv] in Hobj. apply good_same; [exact HS|].
+      eapply obs_res_neq; [apply total_safe; apply (recv_body_queries_total f Hobj)|apply bool_neq].
+    + cbn [ObjInv] in Hobj. apply good_same; [exact HS|].
+      eapply obs_res_neq; [apply call_reader_of_safe; exact Hobj|intros r; apply bool_neq].
   - (* OQBodyMode *)
     destruct (s_obj s) as [|t f|h c] eqn:Eo; try destruct t; try same_np HS.
     apply good_same; [exact HS|apply mode_neq].
@@ -415,7 +524,9 @@ Proof.
       (apply good_same; [exact HS|apply version_name_neq]).
   - (* OQIsFinished *)
     destruct (s_obj s) as [|t f|h c] eqn:Eo; try destruct h; try same_np HS;
-      (apply good_same; [exact HS|apply bool_neq]).
+      try (apply good_same; [exact HS|apply bool_neq]).
+    cbn [ObjInv] in Hobj. apply good_same; [exact HS|].
+    eapply obs_res_neq; [apply call_reader_of_safe; exact Hobj|intros r; apply bool_neq].
   - (* OQHeaders *)
     destruct (s_obj s) as [|t f|h c] eqn:Eo; try destruct t; try same_np HS.
     apply good_same; [exact HS|apply headers_neq].
